@@ -5,7 +5,10 @@ leg A  spec/ApiSurfaceMC.tla     exhaustive model checking of spec/ApiSurface.tl
                                  repaired guards -> no invalid table index, documented failures returned (INVARIANT NoBad);
                                  guards as written -> TLC lists the defect classes with a shortest witness each (WITNESS)
        TLC-generated inputs      WITNESS sequences, SWEEP histories (every function, one parameter at a time over its
-                                 boundary classes, four contexts) and BEHAVIOUR lines of -simulate runs over the full
+                                 boundary classes - dependent parameters such as the instrument index of getBank-then-setIns
+                                 under each selector value - in the contexts of ApiSurfaceMC!Ctx, each followed by the
+                                 context's suffix: after a burst of simultaneous drum hits on several chips the swept call is
+                                 followed by a render and a tick) and BEHAVIOUR lines of -simulate runs over the full
                                  alphabet (hazard-free deep behaviours; hazard-seeking short ones)
 leg B  spec/ApiSurfaceTrace.tla  monitors evaluated by TLC on executions of the real library recorded by
                                  harness/drive_api.cpp (ASan build, one forked child per history): no crash / abort / throw /
@@ -82,11 +85,12 @@ def run_models(q):
                 extra=("INVARIANT NoBad\n" if rep else "ACTION_CONSTRAINT Report\n") + "CONSTRAINT DepthBound\nVIEW View")
         r = vc.run_tlc("ApiSurfaceMC", cfg=c, timeout=2400, heap="8g", workers=2 if q else 6, tag="ApiMC-" + ("rep" if rep else "asis"),
                        extra=["-noGenerateSpecTE"])
-        r.scope = {"calls": depth, "alphabet": 61, "model": "repaired guards" if rep else "guards as written"}
+        r.scope = {"calls": depth, "alphabet": 64, "model": "repaired guards" if rep else "guards as written"}
         return r
 
     def sweep():
-        c = cfg("ApiSurfaceMC_sweep.cfg", spec="SweepSpec", mode="sweep", fuel=fuel)
+        # thorough: the sweeps also run in the contexts "drums8s" / "drums100" (more chips, more simultaneous drum hits, a loaded song)
+        c = cfg("ApiSurfaceMC_sweep.cfg", spec="SweepSpec", mode="sweep" if q else "sweepall", fuel=fuel)
         return vc.run_tlc("ApiSurfaceMC", cfg=c, timeout=900, heap="4g", workers=1, tag="ApiMC-sweep", extra=["-noGenerateSpecTE"])
 
     def sim(tag, n, length, avoid, salt):
